@@ -362,23 +362,58 @@ func bufferedSingleUse(p *Prog, ce *ChanEngine, op *ChanOp) (bool, string) {
 	if fn.Obj == nil {
 		return false, ""
 	}
-	sites := 0
+	// the method runs once per object: every invocation site is either on a local that holds a freshly constructed
+	// object (result of a same-package constructor call made in the same activation of the same loop body), or —
+	// at most one site — on an object kept in a field of a builder (the shape `go b.trace.process()` in Build)
+	sites, fieldSites, freshSites := 0, 0, 0
 	for _, h := range p.Funcs {
 		hin := info(h)
 		inspectNoLit(h.Body, func(m ast.Node) bool {
-			if call, ok := m.(*ast.CallExpr); ok && callee(hin, call) == fn.Obj {
-				sites++
+			call, ok := m.(*ast.CallExpr)
+			if !ok || callee(hin, call) != fn.Obj {
+				return true
+			}
+			sites++
+			sel, _ := unparen(call.Fun).(*ast.SelectorExpr)
+			fresh := false
+			if sel != nil {
+				if id, ok := unparen(sel.X).(*ast.Ident); ok {
+					if o := objOf(hin, id); o != nil && isLocalVar(h.Root(), o) {
+						defs, _ := localDefs(hin, h.Root().Body, o)
+						fresh = len(defs) > 0
+						for _, d := range defs {
+							dc, ok := unparen(d).(*ast.CallExpr)
+							if !ok {
+								fresh = false
+								continue
+							}
+							cf := p.byObj[callee(hin, dc)]
+							if cf == nil || cf.Pkg != h.Pkg || !returnsFreshObject(cf) {
+								fresh = false
+							}
+							// the definition and the invocation are in the same loop iteration
+							if innermostLoop(p, dc) != innermostLoop(p, call) {
+								fresh = false
+							}
+						}
+					}
+				}
+			}
+			if fresh {
+				freshSites++
+			} else {
+				fieldSites++
 				if inLoopRelativeTo(call, nil) {
-					sites += 100
+					fieldSites += 100
 				}
 			}
 			return true
 		})
 	}
-	if sites != 1 {
+	if sites == 0 || fieldSites > 1 {
 		return false, ""
 	}
-	return true, fmt.Sprintf("field channel made with capacity >= 1; all %d sends are on exclusive paths of %s, which is invoked at a single site", len(sends), fn.QName())
+	return true, fmt.Sprintf("field channel made with capacity >= 1; all %d sends are on exclusive paths of %s, which runs once per object (%d invocation site(s), %d on a freshly constructed object)", len(sends), fn.QName(), sites, freshSites)
 }
 
 func innermostLoop(p *Prog, n ast.Node) ast.Node {
@@ -665,6 +700,38 @@ func ownerLaunchedByCaller(p *Prog, ce *ChanEngine, op *ChanOp) (bool, string) {
 			okN++
 			continue
 		}
+		// the launch sits in a helper that only the owner's loop calls (synchronously)
+		if F.Root().Obj != nil {
+			inTree, callers, callersInTree := false, 0, 0
+			trees := map[*FuncInfo]bool{}
+			for lf := range loopFns {
+				for t := range goroutineTree(p, lf) {
+					trees[t] = true
+				}
+			}
+			inTree = trees[F.Root()]
+			for _, h := range p.Funcs {
+				hin := info(h)
+				if h.Body == nil {
+					continue
+				}
+				inspectNoLit(h.Body, func(m ast.Node) bool {
+					if cl, ok := m.(*ast.CallExpr); ok && callee(hin, cl) == F.Root().Obj {
+						callers++
+						if trees[h] || trees[h.Root()] {
+							if _, isGo := p.Parent(cl).(*ast.GoStmt); !isGo {
+								callersInTree++
+							}
+						}
+					}
+					return true
+				})
+			}
+			if inTree && callers > 0 && callers == callersInTree {
+				okN++
+				continue
+			}
+		}
 		g := p.Graph(F)
 		lpt, _ := g.PointOf(l.Site.Stmt)
 		for _, l2 := range ce.Launches() {
@@ -825,6 +892,30 @@ func ruleR16(c *Ctx) {
 									}
 									return true
 								})
+							}
+							// ... or a same-package function the clause calls (or launches) does the send on the same field
+							if !sends {
+								if ofv := fieldOf(in, other.Op.Chan); ofv != nil {
+									var visit func(n ast.Node, fin *types.Info, d int)
+									visit = func(n ast.Node, fin *types.Info, d int) {
+										ast.Inspect(n, func(z ast.Node) bool {
+											switch y := z.(type) {
+											case *ast.SendStmt:
+												if fieldOf(fin, y.Chan) == ofv {
+													sends = true
+												}
+											case *ast.CallExpr:
+												if cf := p.byObj[callee(fin, y)]; cf != nil && cf.Pkg == f.Pkg && cf.Body != nil && d < 2 {
+													visit(cf.Body, info(cf), d+1)
+												}
+											}
+											return true
+										})
+									}
+									for _, st := range dcl.Clause.Body {
+										visit(st, in, 0)
+									}
+								}
 							}
 							if sends {
 								leaves++
@@ -1009,6 +1100,9 @@ func closeRunsOnce(p *Prog, ce *ChanEngine, f *FuncInfo, ch ast.Expr, depth int)
 		})
 	}
 	if len(sites) == 0 {
+		if depth > 0 && !callableThroughInterface(p, root.Obj) {
+			return true, root.QName() + " is never invoked (no static call, no interface it could be called through): it closes nothing"
+		}
 		return false, "no invocation site found for " + root.QName()
 	}
 	var whys []string
@@ -1019,6 +1113,38 @@ func closeRunsOnce(p *Prog, ce *ChanEngine, f *FuncInfo, ch ast.Expr, depth int)
 				if fn, ok := objOf(info(s.fn), rid).(*types.Func); ok && isConstructorFunc(p, p.byObj[fn]) {
 					whys = append(whys, s.kind+" on the fresh result of "+fn.Name()+"() in "+s.fn.QName())
 					continue
+				}
+			}
+		}
+		// invoked on a local that holds the fresh result of a constructor called in the same loop iteration
+		if sel, ok := unparen(s.call.Fun).(*ast.SelectorExpr); ok {
+			if id, ok := unparen(sel.X).(*ast.Ident); ok {
+				hin := info(s.fn)
+				if o := objOf(hin, id); o != nil && isLocalVar(s.fn.Root(), o) {
+					defs, _ := localDefs(hin, s.fn.Root().Body, o)
+					fresh := len(defs) > 0
+					for _, d := range defs {
+						dc, ok := unparen(d).(*ast.CallExpr)
+						if !ok || !returnsFreshObject(p.byObj[callee(hin, dc)]) || innermostLoop(p, dc) != innermostLoop(p, s.call) {
+							fresh = false
+						}
+					}
+					// and it is invoked once on that local
+					uses := 0
+					inspectNoLit(s.fn.Body, func(m ast.Node) bool {
+						if c2, ok := m.(*ast.CallExpr); ok && callee(hin, c2) == root.Obj {
+							if s2, ok := unparen(c2.Fun).(*ast.SelectorExpr); ok {
+								if i2, ok := unparen(s2.X).(*ast.Ident); ok && objOf(hin, i2) == o {
+									uses++
+								}
+							}
+						}
+						return true
+					})
+					if fresh && uses == 1 {
+						whys = append(whys, s.kind+" on "+id.Name+", a fresh object per iteration, in "+s.fn.QName())
+						continue
+					}
 				}
 			}
 		}
@@ -1035,7 +1161,39 @@ func closeRunsOnce(p *Prog, ce *ChanEngine, f *FuncInfo, ch ast.Expr, depth int)
 			recvExpr = sel.X
 		}
 		if recvExpr == nil {
-			return false, "invocation without receiver at " + p.Pos(s.call.Pos())
+			// the channel is a parameter of the closing function: follow the argument bound to it
+			if root.Obj != nil {
+				sig := root.Obj.Type().(*types.Signature)
+				for i := 0; i < sig.Params().Len() && i < len(s.call.Args); i++ {
+					if sig.Params().At(i) == bv {
+						recvExpr = s.call.Args[i]
+					}
+				}
+			}
+			if recvExpr == nil {
+				return false, "invocation without receiver at " + p.Pos(s.call.Pos())
+			}
+			// when the closing code is a literal that the function RETURNS, the result of this call must itself be
+			// used once: as the callback argument of a driver that invokes that parameter at most once
+			if returnedLiteral(p, root) != nil {
+				outer, ok := p.Parent(s.call).(*ast.CallExpr)
+				if !ok {
+					return false, "the closure returned by " + root.QName() + " is not handed straight to a driver at " + p.Pos(s.call.Pos())
+				}
+				df := p.byObj[callee(info(s.fn), outer)]
+				idx := -1
+				for i, a := range outer.Args {
+					if unparen(a) == ast.Expr(s.call) {
+						idx = i
+					}
+				}
+				if df == nil || idx < 0 || paramAt(df, idx) == nil {
+					return false, "the closure returned by " + root.QName() + " is passed to an unknown function"
+				}
+				if ok, why := paramCalledAtMostOnce(p, df, paramAt(df, idx)); !ok {
+					return false, "callback of " + df.QName() + ": " + why
+				}
+			}
 		}
 		ok, why := closeRunsOnce(p, ce, s.fn, recvExpr, depth+1)
 		if !ok {
@@ -1080,6 +1238,26 @@ func literalRunsOnce(p *Prog, f *FuncInfo) (bool, string) {
 			// returned or stored literal (e.g. `return func(...)`): runs when its holder calls it
 			if _, isRet := par.(*ast.ReturnStmt); isRet {
 				continue
+			}
+			// bound to a local that is only ever handed to sync.Once.Do
+			if as, isAs := par.(*ast.AssignStmt); isAs && len(as.Lhs) == 1 && fi.Parent != nil {
+				if id, ok := as.Lhs[0].(*ast.Ident); ok {
+					pin := info(fi.Parent)
+					o := objOf(pin, id)
+					uses, onceUses := 0, 0
+					ast.Inspect(fi.Parent.Root().Body, func(m ast.Node) bool {
+						if u, ok := m.(*ast.Ident); ok && u != id && pin.Uses[u] == o {
+							uses++
+							if cl, ok := p.Parent(u).(*ast.CallExpr); ok && isSyncMethod(pin, cl, "Once", "Do") {
+								onceUses++
+							}
+						}
+						return true
+					})
+					if o != nil && uses > 0 && uses == onceUses {
+						continue
+					}
+				}
 			}
 			return false, "function literal is stored, cannot bound how often it runs"
 		}
@@ -1288,8 +1466,42 @@ func underOnce(p *Prog, f *FuncInfo, n ast.Node) bool {
 				return true
 			}
 		}
+		if litBoundOnlyToOnceDo(p, fi) {
+			return true
+		}
 	}
 	return false
+}
+
+// litBoundOnlyToOnceDo: the literal is assigned to a local variable whose every use is the argument of sync.Once.Do.
+func litBoundOnlyToOnceDo(p *Prog, fi *FuncInfo) bool {
+	if fi == nil || fi.Lit == nil || fi.Parent == nil {
+		return false
+	}
+	as, ok := p.Parent(fi.Lit).(*ast.AssignStmt)
+	if !ok || len(as.Lhs) != 1 {
+		return false
+	}
+	id, ok := as.Lhs[0].(*ast.Ident)
+	if !ok {
+		return false
+	}
+	pin := info(fi.Parent)
+	o := objOf(pin, id)
+	if o == nil {
+		return false
+	}
+	uses, onceUses := 0, 0
+	ast.Inspect(fi.Parent.Root().Body, func(m ast.Node) bool {
+		if u, ok := m.(*ast.Ident); ok && u != id && pin.Uses[u] == o {
+			uses++
+			if cl, ok := p.Parent(u).(*ast.CallExpr); ok && isSyncMethod(pin, cl, "Once", "Do") {
+				onceUses++
+			}
+		}
+		return true
+	})
+	return uses > 0 && uses == onceUses
 }
 
 func guardedByClosedCheck(p *Prog, f *FuncInfo, op *ChanOp) bool {
@@ -1439,4 +1651,87 @@ func ruleR21b(c *Ctx) {
 			c.Check(!plain, f, f.Body, "finaliser callback runs only by defer", "the callback that closes the timer channel runs by defer after the firing loop, never before a firing callback", fmt.Sprintf("plain call of the finaliser: %v", plain))
 		}
 	}
+}
+
+// returnsFreshObject: every return of the declared function yields the address of a composite literal or of a local
+// that holds one (a constructor).
+func returnsFreshObject(f *FuncInfo) bool {
+	if f == nil || f.Body == nil {
+		return false
+	}
+	in := info(f)
+	ok, n := true, 0
+	inspectNoLit(f.Body, func(m ast.Node) bool {
+		ret, isRet := m.(*ast.ReturnStmt)
+		if !isRet || len(ret.Results) == 0 {
+			return true
+		}
+		n++
+		r := unparen(ret.Results[0])
+		if u, isU := r.(*ast.UnaryExpr); isU && u.Op == token.AND {
+			r = unparen(u.X)
+			if _, isLit := r.(*ast.CompositeLit); isLit {
+				return true
+			}
+			if id, isId := r.(*ast.Ident); isId {
+				if o := objOf(in, id); o != nil && isLocalVar(f, o) {
+					return true
+				}
+			}
+		}
+		if id, isId := r.(*ast.Ident); isId {
+			if o := objOf(in, id); o != nil && isLocalVar(f, o) {
+				defs, _ := localDefs(in, f.Body, o)
+				for _, d := range defs {
+					if u, isU := unparen(d).(*ast.UnaryExpr); isU && u.Op == token.AND {
+						if _, isLit := unparen(u.X).(*ast.CompositeLit); isLit {
+							continue
+						}
+					}
+					ok = false
+				}
+				if len(defs) > 0 {
+					return true
+				}
+			}
+		}
+		ok = false
+		return true
+	})
+	return ok && n > 0
+}
+
+// callableThroughInterface: some interface of the loaded program declares a method of fn's name that fn's receiver
+// type implements (fn may then be reached by a dynamic call the static search does not see).
+func callableThroughInterface(p *Prog, fn *types.Func) bool {
+	r := recvNamed(fn)
+	if r == nil {
+		return false
+	}
+	for _, pk := range p.All {
+		if pk.Types == nil {
+			continue
+		}
+		sc := pk.Types.Scope()
+		for _, name := range sc.Names() {
+			tn, ok := sc.Lookup(name).(*types.TypeName)
+			if !ok {
+				continue
+			}
+			it, ok := tn.Type().Underlying().(*types.Interface)
+			if !ok || it.NumMethods() == 0 {
+				continue
+			}
+			has := false
+			for i := 0; i < it.NumMethods(); i++ {
+				if it.Method(i).Name() == fn.Name() {
+					has = true
+				}
+			}
+			if has && (types.Implements(r, it) || types.Implements(types.NewPointer(r), it)) {
+				return true
+			}
+		}
+	}
+	return false
 }
